@@ -26,7 +26,7 @@ def history(rnd, maxlen):
             live[nxt], slots[s] = s, nxt
             nxt += 1
         elif not live:
-            continue
+            break                        # every engine name has been used and destroyed
         elif x < 0.45:
             e = rnd.choice(list(live))
             ops.append("S %d %d %s %d" % (e, rnd.randrange(NTHREAD), rnd.choice(NAMES), rnd.randrange(1, 100)))
